@@ -31,6 +31,8 @@ Lbl ==
      ELSE IF polled # {} THEN <<[op |-> "next", h |-> CHOOSE h \in polled : TRUE]>>
      ELSE IF ended # {} THEN <<[op |-> "next", h |-> CHOOSE h \in ended : TRUE]>>
      ELSE IF unsubbed # {} THEN <<[op |-> "unsub", h |-> CHOOSE h \in unsubbed : TRUE]>>
+     ELSE IF \E h \in Subs : stream[h].rx = "ended" /\ stream'[h].rx = "gone"
+       THEN <<[op |-> "dropEnded", h |-> CHOOSE h \in Subs : stream[h].rx = "ended" /\ stream'[h].rx = "gone"]>>
      ELSE IF dropped # {} THEN <<[op |-> "drop", h |-> CHOOSE h \in dropped : TRUE, lost |-> (toBack' = toBack)]>>    \* lost: try_send found the queue full
      ELSE IF \E h \in Ops : fe[h].st # "abandoned" /\ fe'[h].st = "abandoned"
        THEN <<[op |-> "abandon", h |-> CHOOSE h \in Ops : fe[h].st # "abandoned" /\ fe'[h].st = "abandoned"]>>
